@@ -522,6 +522,10 @@ pub mod shim {
     pub assume_specification [u8::is_ascii] (b: &u8) -> (r: bool) ensures r == (*b < 128);
     pub assume_specification [u8::to_ascii_uppercase] (b: &u8) -> (r: u8) ensures r == (if 0x61 <= *b <= 0x7a { (*b - 32) as u8 } else { *b });
     pub assume_specification [u8::to_ascii_lowercase] (b: &u8) -> (r: u8) ensures r == (if 0x41 <= *b <= 0x5a { (*b + 32) as u8 } else { *b });
+    pub open spec fn ascii_lower(b: u8) -> u8 { if 0x41 <= b <= 0x5a { (b + 32) as u8 } else { b } }
+    pub assume_specification [u8::eq_ignore_ascii_case] (a: &u8, b: &u8) -> (r: bool) ensures r == (ascii_lower(*a) == ascii_lower(*b));
+    pub assume_specification [<[u8]>::eq_ignore_ascii_case] (a: &[u8], b: &[u8]) -> (r: bool)
+        ensures r == (a@.len() == b@.len() && forall|i: int| 0 <= i < a@.len() ==> ascii_lower(#[trigger] a@[i]) == ascii_lower(b@[i]));
     pub assume_specification<T: Copy> [Option::<&T>::copied] (o: Option<&T>) -> (r: Option<T>)
         ensures r == (match o { Some(x) => Some(*x), None => None });
     pub assume_specification<T> [bool::then_some::<T>] (b: bool, t: T) -> (r: Option<T>) ensures r == (if b { Some(t) } else { None });
